@@ -315,9 +315,191 @@ def gen_bulk(rng, kind):
         kind, c.cap, c.ttl, c.tick, c.num, c.den, universe, ts, lf, val, seed, skew_of(kind, ts, seed))] + c.lines + ["end"]
 
 
+# ---------------------------------------------------------------------------------------------
+# Extremes: inputs far from what the repo's tests (and the ordinary generators above) use
+# ---------------------------------------------------------------------------------------------
+
+EXTREME_FAMILIES = ("hot", "bigttl", "longcap", "longrun", "bigtick")
+
+BIG_TTLS_MS = [59999, 60000, 3600000, 86400000, 2147483, 2147484, 2147483647, 2147483648, 4294967295, 4294967296,
+               4294968, 10 ** 10, 10 ** 12, 2 * 10 ** 12, 4 * 10 ** 12]
+LIMIT_NS = 1 << 62  # 'TTLs representable on the clock': every deadline now + ttl stays below 2^62 ns
+
+
+def extreme_applicable(kind, fam):
+    if fam == "bigttl":
+        return kind in TTL_KINDS
+    if fam == "bigtick":
+        return kind == "lfuda"
+    if fam == "longcap":
+        return kind not in ("utmap", "utset")
+    if fam == "longrun":
+        return kind not in TTL_KINDS
+    return True
+
+
+def gen_extreme(rng, kind, fam=None, huge=False):
+    """One script of an 'unusual input' family:
+    hot      one key used hundreds (rarely: tens of thousands) of times - counts past 127/255/32767/65535
+    bigttl   TTLs of minutes ... 146 years (ms counts past 2^31, 2^32; ns counts past 2^53, 2^62/… ) with the
+             clock aimed at the deadlines +-1 ns
+    longcap  capacities 16..64 with a few hundred operations (slot recycling far from the list ends)
+    longrun  hundreds to thousands of calls on a small cache (non-TTL kinds: sweeps are cheap there)
+    bigtick  lfuda with ticks of minutes..2^32 ms, ratios 7/8, 15/16, counts in the hundreds"""
+    fams = [f for f in EXTREME_FAMILIES if extreme_applicable(kind, f)]
+    if fam is None or fam not in fams:
+        fam = rng.choice(fams)
+    r = rng
+    if fam == "hot":
+        c = Ctx(r, kind, cap=(r.choice([1, 2, 3, 4]) if kind not in ("utmap", "utset") else None))
+        if kind == "lfuda":
+            c.num, c.den = r.choice([(1, 1), (1, 2), (3, 4), (7, 8)])
+        if kind in ("utlru", "utmap", "utset"):
+            c.ttl = c.cur_ttl = 1000000
+        c.long = True
+        n = r.choice([130, 260, 300]) if not huge else r.choice([33000, 66000])
+        hot = r.randrange(c.nkeys)
+        for _ in range(r.randint(0, 3)):
+            gen_op(c)
+        c.emit(0, ["ins", hot, c.fresh_val(), "iu", 1000000])
+        c.maybe.add(hot)
+        done = 0
+        while done < n:
+            x = r.random()
+            if x < 0.7:
+                m = min(n - done, r.choice([50, 100, 127, 128]))
+                c.emit(0, [r.choice(["findr", "findf"]), 0, fmt_list([hot] * m)])
+                done += m
+            elif x < 0.8:
+                m = min(n - done, r.choice([20, 64]))
+                xs = ["%d:%d:%d" % (hot, c.fresh_val(), 1000000) for _ in range(m)]
+                c.emit(0, ["insr", r.choice(["iu", "u"]), ",".join(xs)])
+                done += m
+            elif x < 0.9:
+                c.emit(0, ["findc" if kind in ("lfu", "lfuda") else "find", hot, 0])
+                done += 1
+            else:
+                gen_op(c)
+        for _ in range(r.randint(2, 8)):
+            gen_op(c)
+        if kind in ("lfu", "lfuda"):
+            c.emit(0, ["findc", hot, 1])
+        drain(c)
+    elif fam == "bigttl":
+        fixed = kind in ("utmap", "utset")
+        big = r.choice([t for t in BIG_TTLS_MS if not fixed or t <= 2 * 10 ** 12])
+        c = Ctx(r, kind, ttl=(big if kind != "tlru" else 0))
+        c.long = False
+        c.cur_ttl = c.ttl
+        ttls = [big, r.choice(BIG_TTLS_MS), r.choice([1, 2, 5])]
+
+        def fits(t_ms, now=None):
+            return (c.now if now is None else now) + t_ms * MS < LIMIT_NS
+
+        def t_arg():
+            if kind != "tlru":
+                return 0
+            ok = [t for t in ttls if fits(t)]
+            return r.choice(ok)
+
+        def before_write():
+            # utlru: the configured TTL must still fit at this clock reading
+            if kind == "utlru" and not fits(c.cur_ttl):
+                c.cur_ttl = r.choice([t for t in BIG_TTLS_MS + [1, 2] if fits(t)])
+                c.emit(0, ["uttl", c.cur_ttl])
+        for _ in range(r.randint(10, 30)):
+            x = r.random()
+            # clock: stay, or jump right next to a pending deadline
+            future = sorted(m for m in c.marks if m >= c.now - 1)
+            if future and x < 0.35:
+                t = r.choice(future[:3]) + r.choice([-1, 0, 0, 1])
+                if t >= c.now and (not fixed or fits(c.ttl, t + 3600 * 1000 * MS)):
+                    c.now = t
+            elif x < 0.45:
+                d = r.choice([1, MS, 1000 * MS, 3600 * 1000 * MS])
+                if not fixed or fits(c.ttl, c.now + d):
+                    c.now += d
+            y = r.random()
+            if y < 0.4:
+                before_write()
+                k, v, t = c.key(), c.fresh_val(), t_arg()
+                c.emit(0, ["ins", k, v, c.allow(), t])
+                c.note_write(k, t)
+            elif y < 0.5:
+                before_write()
+                xs = []
+                for _ in range(r.randint(1, 3)):
+                    k, v, t = c.key(), c.fresh_val(), t_arg()
+                    xs.append("%d:%d:%d" % (k, v, t))
+                    c.note_write(k, t)
+                c.emit(0, ["insr", c.allow(), ",".join(xs)])
+            elif y < 0.75:
+                c.emit(0, ["find", c.key(), c.peek()])
+            elif y < 0.85:
+                c.emit(0, ["clean"])
+            elif y < 0.9:
+                c.emit(0, ["size"])
+            elif y < 0.95 and kind == "utlru":
+                c.cur_ttl = r.choice([t for t in BIG_TTLS_MS + [1, 2] if fits(t)])
+                c.emit(0, ["uttl", c.cur_ttl])
+            else:
+                c.emit(0, ["erase", c.key()])
+        if kind == "utlru":
+            before_write()
+        drain(c)
+    elif fam == "longcap":
+        cap = r.choice([16, 31, 32, 33, 64])
+        c = Ctx(r, kind, cap=cap, nkeys=cap + r.randint(1, 6))
+        n = r.randint(120, 300)
+        if kind in TTL_KINDS:
+            n = 60
+        for _ in range(n):
+            gen_op(c)
+        drain(c)
+    elif fam == "longrun":
+        c = Ctx(r, kind)
+        for _ in range(r.randint(300, 1500) if not huge else 6000):
+            gen_op(c)
+        drain(c)
+    else:  # bigtick
+        c = Ctx(r, kind, cap=r.choice([2, 3, 4, 7]))
+        c.tick = r.choice([1000, 60000, 3600000, 2147483648, 4294967296, 10 ** 10])
+        c.num, c.den = r.choice([(7, 8), (15, 16), (1, 2), (3, 4), (1, 1)])
+        step = c.tick * MS
+        for _ in range(r.randint(20, 60)):
+            x = r.random()
+            if x < 0.25:
+                c.now += r.choice([step - 1, step, step + 1, 2 * step + 1, step // 2, 5 * step])
+            elif x < 0.35:
+                c.now += r.choice([1, MS])
+            y = r.random()
+            if y < 0.3:
+                k = c.key()
+                c.emit(0, ["findr", 0, fmt_list([k] * r.choice([3, 17, 40, 130]))])
+            elif y < 0.45:
+                c.emit(0, ["age"])
+            elif y < 0.6:
+                c.emit(0, ["findc", c.key(), r.choice([0, 1])])
+            else:
+                k = c.key()
+                c.emit(0, ["ins", k, c.fresh_val(), c.allow(), 0])
+                c.maybe.add(k)
+        drain(c)
+    ts, lf, val, seed = variant(r)
+    return [cfg_line(c, "single", ts, lf, val, seed)] + c.lines + ["end"]
+
+
+def extremes_fixed(rng, kind):
+    """One script of every applicable family (run by every check whose modes include `single`)."""
+    return [gen_extreme(rng, kind, fam) for fam in EXTREME_FAMILIES if extreme_applicable(kind, fam)]
+
+
 def gen_single(rng, kind, maxops=60):
-    if rng.random() < 0.04:
+    x = rng.random()
+    if x < 0.04:
         return gen_bulk(rng, kind)
+    if x < 0.07:
+        return gen_extreme(rng, kind)
     c = Ctx(rng, kind)
     n = rng.randint(8, maxops)
     if kind in TTL_KINDS:
